@@ -134,7 +134,7 @@ fn check_leak(ctx: &mut Ctx, sc: &Scenario) -> Res {
 fn scenario() -> impl Strategy<Value = Scenario> {
     let dg = prop_oneof![3 => std_req().prop_map(Dgram::Std), 2 => any_dgram()];
     let step = vec_of((0u8..16, dg).prop_map(|(sock, d)| Send { sock, d }).boxed(), 1usize..=12);
-    (seed32(), prop::sample::select(vec![1u8, 2, 8, 64]), prop_oneof![2 => Just(0u8), 1 => 1u8..=50], proptest::collection::vec(step, 1..=3)).prop_map(|(seed, batch_size, fault, steps)| Scenario { seed, batch_size, fault, stats: false, steps })
+    (seed32(), prop::sample::select(vec![1u8, 2, 8, 64]), prop_oneof![2 => Just(0u8), 1 => 1u8..=50], proptest::collection::vec(step, 1..=3)).prop_map(|(seed, batch_size, fault, steps)| Scenario { ipv6: false, seed, batch_size, fault, stats: false, steps })
 }
 
 /// configuration loading in-process (file and ENV), valid and invalid variants, under the capturing logger
